@@ -19,12 +19,19 @@ RULE = (
     "last reader closes (segment gone, key unknown, space returned); whenever a request answered wait although free space plus "
     "idle, reader-free resident datasets suffice, completing all disk jobs and re-issuing it (<= 4 rounds) gets it granted. "
     "non-trivial = a read that followed >=1 page-out+page-in of that key, or a wait that was later granted, or a purge issued during "
-    "a read; distinct = fingerprint of the history"
+    "a read; distinct = fingerprint of the history. Plus sampled executions against the real server process: 2-6 concurrent real "
+    "client threads, each owning its keys (exact per-key model: allocate / write / read / hold / purge / re-write, oversize requests, "
+    "peeks at other threads' keys that must be self-consistent), memory 1.3-2.7x over-committed so that evictions and page-ins happen; "
+    "at every barrier the reported free space must equal capacity minus the segments present; non-trivial there = >=1 verified read "
+    "and >=1 eviction observed"
 )
 ASSUMPTIONS = [
     "eviction order itself (once-read, many-read, never-read) is not asserted: the statement demands safety and reachability only",
     "what the store does with a dataset whose disk job failed is observed, not prescribed (it may forget it or keep it reserved)",
     "disk jobs are atomic in the harness; see C08",
+    "real-server samples (2 per shard quick, 12 thorough): the real server process, UDP loopback, disk thread pools and 2-6 concurrent "
+    "real client threads; the schedule there is the operating system's, so these are sampled executions, not a search; a time-out "
+    "counts only when it recurs on a second execution",
 ]
 TIERS = _T8
 MANIFEST = {
@@ -43,13 +50,60 @@ def _nt(m) -> bool:
     return s["read_after_cycle"] >= 1 or s["wait_then_granted"] >= 1 or s["purge_during_read"] >= 1
 
 
+_real_n = [0]
+
+
+def _real_body(stats):
+    """One sample against the real server process (real UDP, real disk threads) with concurrent real client threads."""
+    import os
+
+    from .. import realshm
+
+    def body(case):
+        shard_i = int(os.environ.get("VERIF_SHARD", "0"))
+        for attempt in (1, 2):
+            _real_n[0] += 1
+            r = realshm.run_case(case, 1100 + shard_i * 56 + (_real_n[0] % 8) * 7, f"v9r{os.getpid() % 10000}x{_real_n[0] % 1000}")
+            if r.breaches:
+                fam, clause, msg = r.breaches[0]
+                raise Violation(f"real shm server, {len(case['threads'])} concurrent clients, capacity {case['capacity']}: {msg}", clause)
+            if not r.timeouts:
+                break
+            # a request that is not served within 20 s although at most half the capacity is pinned: reachability. Scheduling is the
+            # operating system's here, so only a time-out that recurs on a second execution of the same script is reported
+            if attempt == 2:
+                raise Violation(f"real shm server: {r.timeouts[0]} (twice in a row; at most half the capacity was pinned by open "
+                                f"buffers, so evicting idle datasets would have served it)", "unreachable")
+            if stats is not None:
+                stats.inconclusive += 1
+        s = r.stats
+        nt = s["reads_ok"] >= 1 and s["evictions_seen"] >= 1
+        tags = ["real_server_sample"] + [f"real_{k}" for k in ("evictions_seen", "rewrites", "held", "peeks_ok", "purges", "oversize_refused") if s[k]]
+        return nt, tags
+
+    return body
+
+
 def shard(seed, cases, tier):
+    from hypothesis import strategies as st
+
+    from .. import realshm
+
+    # the real-server samples run first: they fork, which is only safe while this process has no other threads
+    real = Stats()
+    common.hyp_run(st.composite(realshm.cases)(), _real_body(real), real, seed + 17, 12 if tier == "thorough" else 2, shrink=False)
+    if real.violations:
+        return real
     st_ = Stats()
     common.hyp_run(shmmachine.histories(max_ops=TIERS[tier]["max_ops"]), body_for(FAMILY, _nt, st_), st_, seed, cases)
+    st_.merge(real)
     return st_
 
 
 def replay(case):
+    if "threads" in case:
+        _real_body(None)(case)
+        return
     m = shmmachine.run_history(case, _known_f20())
     mine = [b for b in m.breaches if b[0] == FAMILY]
     if mine:
